@@ -8,20 +8,24 @@ def block(s, name, body):
     return s[:i] + "\n" + body.rstrip() + "\n" + s[j:]
 props = [json.loads(l) for l in open(os.path.join(ROOT, "properties.jsonl"))]
 claims = json.load(open(os.path.join(ROOT, "harness", "claims.json")))
-st = ["| Id | Level | Theorems in `props/` | Technique | Quick-tier evidence (last run) |", "|---|---|---|---|---|"]
+st = ["| Id | Level | Theorems in `props/` | Technique | Axioms (`Print Assumptions`, union over the theorems) | Quick-tier evidence (last run) |", "|---|---|---|---|---|---|"]
 for p in props:
     pid = p["id"]
     pf = os.path.join(ROOT, "coq", "props", pid + ".v")
     n = len(re.findall(r"(?m)^\s*Theorem\s", open(pf).read())) if os.path.exists(pf) else 0
     ev = os.path.join(ROOT, "evidence", pid + ".json")
     evs = ""
+    ax = ""
     if os.path.exists(ev):
         e = json.load(open(ev)); c = e["coverage"]
+        ax = next((x.split(": ", 1)[1] for x in c.get("trusted_base", []) if x.startswith("axioms reported")), "")
+        ax = ax.replace("ClassicalDedekindReals.", "").replace("FunctionalExtensionality.", "").replace("Classical_Prop.", "")
+        ax = re.sub(r"(Uint63|PrimInt63)\.[\w.]+(, )?", "", ax).strip(", ") + (" + Uint63 primitives/axioms (bigQ)" if "Uint63" in ax else "")
         evs = "%d evaluations, %d distinct non-trivial, %d/%d obligations, %.0f s" % (c.get("evaluations", 0), c.get("distinct_nontrivial", 0), c.get("discharged", 0), c.get("obligations", 0), e.get("wall_s", 0))
     if pid in claims:
-        st.append("| %s | %s | %d | %s | %s |" % (pid, claims[pid][0], n, claims[pid][4], evs))
+        st.append("| %s | %s | %d | %s | %s | %s |" % (pid, claims[pid][0], n, claims[pid][4], ax, evs))
     else:
-        st.append("| %s | not claimed yet | %d | — | %s |" % (pid, n, evs))
+        st.append("| %s | not claimed yet | %d | — | %s | %s |" % (pid, n, ax, evs))
 kf = json.load(open(os.path.join(ROOT, "known_findings.json")))["findings"]
 ft = ["| Property | Status | Signature | What |", "|---|---|---|---|"]
 for f in kf:
